@@ -18,6 +18,8 @@ func TestVerif(t *testing.T) {
 	switch e.Prop {
 	case "C01", "C03", "C17":
 		h = txHarness{prop: e.Prop}
+	case "C02":
+		h = c02Harness{}
 	default:
 		t.Fatalf("unknown property %s for package transfer", e.Prop)
 	}
